@@ -284,9 +284,11 @@ def _run_chunk(exe, lines, timeout, unlimited_stack=False):
     while pos < len(lines):
         chunk = lines[pos:]
         data = "\n".join(chunk) + "\n"
-        cmd = [exe]
+        # the child limits itself (CPU seconds, address space) so that it cannot outlive a killed parent as a runaway
+        limits = "ulimit -t %d 2>/dev/null; ulimit -v 16000000 2>/dev/null; " % (int(timeout) + 120)
         if unlimited_stack:
-            cmd = ["bash", "-c", "ulimit -s unlimited 2>/dev/null; exec " + exe]
+            limits += "ulimit -s unlimited 2>/dev/null; "
+        cmd = ["bash", "-c", limits + "exec " + exe]
         try:
             p = subprocess.run(cmd, input=data, stdout=subprocess.PIPE, stderr=subprocess.DEVNULL, text=True, timeout=timeout)
             got = p.stdout.splitlines()
